@@ -243,6 +243,14 @@ pub fn job(types: &[Ty], cfg: &CConfig, clang: &str, level2: bool, label: &str, 
                 }
             }
             Err(e) => {
+                if std::env::var_os("E4_DEBUG").is_some() {
+                    let m = match &e {
+                        PrepErr::Generate(m) => format!("generate: {m}"),
+                        PrepErr::Compile(m) => format!("compile: {m}"),
+                        PrepErr::Machinery(m) => format!("machinery: {m}"),
+                    };
+                    eprintln!("[{label}] chunk of {} failed: {}", ts.len(), m.chars().take(600).collect::<String>());
+                }
                 if ts.len() > 1 {
                     let mid = ts.len() / 2;
                     work.push(ts[mid..].to_vec());
